@@ -8,7 +8,9 @@
 //! documents, replaced ones included) is scanned for 8-byte windows of every
 //! plaintext written, and the nonce of every chunk is re-derived from the
 //! metadata documents (`n` + chunk index) and collected in one set for the
-//! whole run.
+//! whole run. A last phase scripts the entropy draws of every nonce-drawing
+//! writer and decides that each chunk and seal nonce is a function of one
+//! full 96-bit draw (see `entropy_phase`).
 
 use object_store::ObjectStore;
 use serde_json::json;
